@@ -24,6 +24,7 @@ struct M<'a, K, const D: usize> {
     kname: &'static str,
     label: String,
     alphabet: Vec<[f64; D]>,
+    seed_pts: Vec<[f64; D]>,
     policy_bound: u8,
     policy_until_vertices: usize,
     _k: std::marker::PhantomData<K>,
@@ -37,7 +38,7 @@ impl<'a, K: Kernel<D, Scalar = f64> + Sync + Send, const D: usize> M<'a, K, D> {
     fn replay_json(&self, seed: &str, hist: &[Op], op: &Op) -> Value {
         let mut h: Vec<Op> = hist.to_vec();
         h.push(op.clone());
-        json!({"D": D, "kernel": self.kname, "family": self.label, "seed": seed, "alphabet": self.alphabet.iter().map(|p| p.to_vec()).collect::<Vec<_>>(), "ops": h})
+        json!({"D": D, "kernel": self.kname, "family": self.label, "seed": seed, "alphabet": self.alphabet.iter().map(|p| p.to_vec()).collect::<Vec<_>>(), "seed_points": self.seed_pts.iter().map(|p| p.to_vec()).collect::<Vec<_>>(), "ops": h})
     }
 }
 
@@ -151,7 +152,7 @@ where
     K: Kernel<D, Scalar = f64> + Sync + Send,
     DtI<K, D>: Send + Sync,
 {
-    let m = M::<K, D> { rep, kname, label: label.to_string(), alphabet, policy_bound, policy_until_vertices: D + 2, _k: std::marker::PhantomData };
+    let m = M::<K, D> { rep, seed_pts: seed_pts.to_vec(), kname, label: label.to_string(), alphabet, policy_bound, policy_until_vertices: D + 2, _k: std::marker::PhantomData };
     // seeds: empty triangulation (or a batch-constructed one) under the default policies and every single-policy deviation
     let mut seeds: Vec<(St<K, D>, Vec<Op>)> = Vec::new();
     let base: DtI<K, D> = if seed_pts.is_empty() {
@@ -187,6 +188,9 @@ fn both<const D: usize>(rep: &Report, label: &str, alphabet: Vec<[f64; D]>, seed
 
 fn main() {
     let args = parse_args();
+    if let Some(p) = &args.replay {
+        std::process::exit(vcore::replay::generic(p));
+    }
     silence_panics();
     let rep = Report::new("C02", &args);
     vcore::exact::self_check();
